@@ -1,11 +1,14 @@
 """Generated DAG cases: generator, encoding for the Lean driver, execution on the real code
 (fake-process layer for fork/spawn, real SerialRunner), canonical observation."""
+import copy
 import dataclasses
 import logging
 import os
+import pickle
 import random
 import shutil
 import tempfile
+import zlib
 from datetime import datetime, timedelta
 
 from frozendict import frozendict
@@ -167,6 +170,69 @@ def gen_ext_case(rng, **kw):
     return None
 
 
+def gen_extdel_case(rng, variant=None, **kw):
+    """a case in which ANOTHER actor on the same storage (another Lab's uncache_tasks, a clean-up job, the clean-up of
+    somebody's failed overwrite) REMOVES the entry of a task w that was cached when run_tasks planned the run, while
+    another task runs, and
+      variant 'A': BEFORE w is submitted - w's type has max_parallel=1 and a task x of the same type precedes it, so w
+                   is held back while x executes (the decision whether to load w is due at w's submission);
+      variant 'B': AFTER w was loaded and before the tasks that follow (its dependents among them) are submitted.
+    The entry is never removed between w's submission and w's completion (the load itself racing with the removal is
+    another interleaving, and not one the unchanged code survives cleanly). Which of the two happened is decided at run
+    time from the events so far and recorded; monitor-only (the models assume no other writer during a run)."""
+    for _ in range(50):
+        c = gen_case(rng, **kw)
+        c.pop('second', None)
+        c['bust'] = 0
+        n = len(c['ty'])
+        have = {t for t, _ in c['inst']}
+        leaves = [t for t in range(n) if not c['kids'][t] and t in have and not (c['fl'][t] & 35)]
+        if len(leaves) < 2:
+            continue
+        variant = variant or rng.choice('AAB')
+        with_dep = [t for t in leaves if any(t in c['kids'][u] for u in have)]
+        w = rng.choice(with_dep if with_dep and variant == 'B' else leaves)
+        x = rng.choice([t for t in leaves if t != w])
+        T = c['ty'][w]
+        c['ty'][x] = T
+        c['ca'][T] = 1
+        c['mp'][T] = 1
+        c['pre'] = {t: v for t, v in c['pre'].items() if t != x and c['ca'][c['ty'][t]]}
+        c['pre'][w] = 1000 * w + c['ctx'] + (1 if rng.random() < 0.3 else 0)
+        iw = next(i for i, (t, _) in enumerate(c['inst']) if t == w)
+        ix = next(i for i, (t, _) in enumerate(c['inst']) if t == x)
+        c['req'] = ([ix, iw] if variant == 'A' else [iw, ix]) + list(c['req'])
+        c['extdel'] = w
+        return c
+    return None
+
+
+def extdel_hook(case, first, storage_dir, events, marker):
+    """the other actor: acts while some task other than w executes (inside its body; under the fake-process layer that
+    is a forked helper whose copy of `events` is the coordinator's record up to the start of that worker)"""
+    w = int(case['extdel'])
+
+    def hook(k):
+        if k == w:
+            return
+        try:
+            o = first.get(w)
+            submitted = any(e[0] == 'S' and e[1] == w for e in events)
+            finished = any(e[0] == 'Y' and e[1] == w for e in events)
+            if o is None or (submitted and not finished):
+                return
+            try:
+                fd = os.open(marker, os.O_WRONLY | os.O_CREAT | os.O_EXCL)
+            except FileExistsError:
+                return      # once per run
+            os.write(fd, ('%d %s' % (k, 'B' if finished else 'A')).encode())
+            os.close(fd)
+            shutil.rmtree(os.path.join(storage_dir, o.cache_key), ignore_errors=True)
+        except Exception:
+            pass
+    return hook
+
+
 def gen_poison_case(rng, **kw):
     """a case in which a pre-cached entry is torn (as a kill mid-save leaves it): the task must be treated as cached -
     loaded, failing - and must NOT be executed in the same call; monitor-only"""
@@ -261,7 +327,43 @@ def build_objects(case):
             return out
         cls = dagtasks.TYPES[case['ty'][t]]
         objs.append(cls(k=t, deps=fill(case['shapes'][t]), mode=case['fl'][t]))
-    return objs
+    return copies_of(objs, case.get('pk'))
+
+
+# ------------------------------------------------------------------ task objects that went through pickle / deepcopy
+PK_KINDS = {1: 'pickle', 2: 'deepcopy', 3: 'pickle(protocol 2) of a deepcopy'}
+COPY_FAILED = []     # (kind, exception class) of copies that could not be made: the originals are used instead
+
+
+def copies_of(objs, pk):
+    """case option `pk`: the task objects handed to run_tasks are not the constructed ones but COPIES of the whole
+    object graph (sharing between objects is kept) - what comes back in a worker's result, what a user's pickle file
+    or copy.deepcopy gives. For the run model nothing changes: a copy is the same task."""
+    if not pk:
+        return objs
+    try:
+        if pk == 1:
+            return pickle.loads(pickle.dumps(objs))
+        if pk == 2:
+            return copy.deepcopy(objs)
+        return pickle.loads(pickle.dumps(copy.deepcopy(objs), protocol=2))
+    except Exception as e:      # that a task cannot be copied is C15's subject; the scheduler checks go on with the originals
+        COPY_FAILED.append((pk, type(e).__name__))
+        return objs
+
+
+def choose_copies(case):
+    """sets case['pk'] for 6 of 16 cases, decided by the case's own content (so that the generated case stream of a
+    seed is what it was, whatever the hash seed of the interpreter)"""
+    h = zlib.crc32(encode(case).encode()) % 16
+    pk = 1 if h < 3 else 2 if h < 5 else 3 if h == 5 else 0
+    if pk > 1 and "'dict'" in repr(case['shapes']):
+        # copy.deepcopy of a frozendict does not keep the sharing of the task objects inside it (the frozendict package's
+        # own __deepcopy__): the copied graph would no longer be the case's instance graph. Such cases are pickled.
+        pk = 1
+    if pk:
+        case['pk'] = pk
+    return case
 
 
 # ------------------------------------------------------------------ recording the real run
@@ -406,6 +508,9 @@ def run_real(case, workdir):
     storage_dir = os.path.join(workdir, 'store')
     shutil.rmtree(storage_dir, ignore_errors=True)
     exec_log = os.path.join(workdir, 'exec.log')
+    extdel_marker = os.path.join(workdir, 'extdel.marker')
+    if os.path.exists(extdel_marker):
+        os.unlink(extdel_marker)
     be = case['be']
     die = {t for t in range(n) if case['fl'][t] & 2}
     first = {}
@@ -454,6 +559,8 @@ def run_real(case, workdir):
                         o._lt.cache.save(storage, o, TaskResult(value=EXT_VALUE, meta=ResultMeta(
                             start=datetime(2021, 1, 1), duration=timedelta(seconds=1))))
                 dagtasks.EXT_HOOK = ext_hook
+            if case.get('extdel') is not None:
+                dagtasks.EXT_HOOK = extdel_hook(case, first, storage_dir, events, extdel_marker)
             if pi == 0:
                 # pre-populate the cache
                 for t, v in case['pre'].items():
@@ -541,6 +648,14 @@ def run_real(case, workdir):
                 except BaseException as e:
                     store_errors.append(f'{t}: {type(e).__name__}')
             parts.append('store=' + ','.join(f'{t}:{v}' for t, v in sorted(store.items())))
+            extdel = listing_error = None
+            if case.get('extdel') is not None:
+                if os.path.exists(extdel_marker):
+                    extdel = open(extdel_marker).read()
+                try:
+                    lab.cached_tasks(list(dict.fromkeys(type(o) for o in objs)))
+                except BaseException as e:
+                    listing_error = type(e).__name__
             marked = sorted(i for i, o in enumerate(objs) if o.result_meta is not None)
             parts.append('marked=' + lst(marked))
             parts.append('results=' + (lst(sorted(t.k for t in inner.results_map)) if inner is not None else ''))
@@ -554,6 +669,7 @@ def run_real(case, workdir):
                              plan=plan, objs=objs, inflight=inflight, phase=pi, store_before=store_before,
                              marked_before=marked_before, store_errors=store_errors, lab_error_cause=lab_error_cause,
                              readable_after=readable_after, indirect=indirect, after_abort=after_abort,
+                             extdel=extdel, listing_error=listing_error,
                              alive_at_exit=sorted(fakeproc.task_of(p.kwargs['thunk']).k for p in fakeproc.CTL.procs.values() if p.alive) if be != 'serial' else [],
                              terminated=[t.k for t in fakeproc.CTL.terminated] if be != 'serial' else []))
             obs_all.append('; '.join(parts))
